@@ -87,7 +87,7 @@ def scale_cache_line(src, tier):
     m = re.search(r"const CACHE_LINE_SIZE: usize = (\d+);", s)
     if not m:
         raise Inconclusive("const CACHE_LINE_SIZE not found in lowmarkbufreader.rs")
-    val = 16
+    val = 8
     s = s[:m.start()] + "const CACHE_LINE_SIZE: usize = %d;" % val + s[m.end():]
     open(p, "w").write(s)
     return "constant scaling: lowmarkbufreader::CACHE_LINE_SIZE %s -> %d (CBMC cannot handle copy_within over a 4 KiB array with symbolic ranges: > 30 GB)" % (m.group(1), val)
